@@ -22,15 +22,17 @@ ASSUMPTIONS = [
 def run(tier):
     def J(name, budget, prefix=3, rule=""):
         kind, g, pairs = H.REG[name]
-        b = g.describe() if hasattr(g, "describe") else {"member_alphabet": [m for m, _ in H.MEMBERS[: g[0]]], "positions": list(g[1]) if len(g) > 1 else "all"}
+        b = g.describe() if hasattr(g, "describe") else {"member_alphabet": [m for m, _ in H.ALPHABETS[g[2] if len(g) > 2 else "MEMBERS"][: g[0]]], "positions": list(g[1]) if len(g) > 1 else "all",
+                                                                "member_order": "alphabet order and reversed" if len(g) > 3 and g[3] else "alphabet order"}
         return Job("harness.c07", name, H.shards(name, prefix), budget,
                    bounds=dict(grammar=b, rewriters=list(H.SINGLE), ordered_pairs=pairs, max_union_len="all integers (symbolic)"),
                    rule=rule or "one path = one (rewriter, type shape, class of n)", describe=H.describe)
     if tier == "quick":
         jobs = [J("types_sub11", 600, 4), J("inferred_tiny", 200, 3, "one path = one (rewriter, pair of value shapes, k class, n class)"),
-                J("types_sub8_pairs", 400, 4, "one path = one (ordered rewriter pair, union member subset, n class)")]
+                J("types_sub8_pairs", 400, 4, "one path = one (ordered rewriter pair, union member subset, n class)"),
+                J("types_mix9", 300, 4, "one path = one (rewriter, member subset of the near-miss alphabet, member order, n class)")]
     else:
         jobs = [J("types_sub11", 200, 4), J("inferred_tiny", 100, 3), J("types_sub8_pairs", 150, 4),
                 J("types_sub14", 400, 5), J("types_sub17", 400, 6), J("types_sub10_pairs", 400, 5),
-                J("inferred_small", 400, 3), J("types_quick", 300, 3), J("types_deep", 300, 3), J("types_union", 300, 3)]
+                J("inferred_small", 400, 3), J("types_mix9", 100, 4), J("types_mix13", 400, 5), J("types_quick", 300, 3), J("types_deep", 300, 3), J("types_union", 300, 3)]
     return run_check(PID, tier, jobs, H.FUNCTIONS, ASSUMPTIONS)
